@@ -8,6 +8,7 @@ import (
 	"sort"
 	"strconv"
 	"strings"
+	"unicode/utf16"
 )
 
 // ---- JSON values (oracle side): decoded with UseNumber, compared as values.
@@ -305,4 +306,50 @@ func allPointers(v interface{}, ptr string, f func(ptr string, v interface{})) {
 			allPointers(x, ptr+"/"+strconv.Itoa(i), f)
 		}
 	}
+}
+
+// escapeNames rewrites a JSON text so that every member name is spelled with \uXXXX escapes only (the same
+// JSON value: RFC 8259 section 7). Values are left as they are.
+func escapeNames(doc []byte) []byte {
+	v, err := parseOrdered(doc)
+	if err != nil {
+		panic(harnessBug{"escapeNames: " + err.Error()})
+	}
+	var b bytes.Buffer
+	var w func(x interface{})
+	w = func(x interface{}) {
+		switch t := x.(type) {
+		case *oobj:
+			b.WriteByte('{')
+			for i, e := range t.kv {
+				if i > 0 {
+					b.WriteByte(',')
+				}
+				b.WriteByte('"')
+				for _, r := range utf16.Encode([]rune(e.k)) {
+					fmt.Fprintf(&b, "\\u%04x", r)
+				}
+				b.WriteString(`":`)
+				w(e.v)
+			}
+			b.WriteByte('}')
+		case []interface{}:
+			b.WriteByte('[')
+			for i, e := range t {
+				if i > 0 {
+					b.WriteByte(',')
+				}
+				w(e)
+			}
+			b.WriteByte(']')
+		default:
+			bb, err := json.Marshal(t)
+			if err != nil {
+				panic(harnessBug{"escapeNames: " + err.Error()})
+			}
+			b.Write(bb)
+		}
+	}
+	w(v)
+	return b.Bytes()
 }
